@@ -286,16 +286,17 @@ impl<'a> RefsIter<'a> {
 //@      hint 1 let name = git::RefString::try_from
 //@        pat_char_char(' ');
 //@        assert(split_once_spec(line@, ' ') == Some((vx_a, vx_b)));
-//@      hint 1 if oid\.is_zero\(\)
+//@      hint_after 1 let oid = Oid::from_str\(oid\)\?;
 //@        assert(ref_of(vx_b) == Some(name));
 //@        assert(oid_of(vx_a) == Some(oid));
-//@      hint_after 1 refs\.insert\(name, oid\);
+//@      # (at the end of the loop body)
+//@      hint 1 \}\s*Ok\(Self\(refs\)\)
 //@        assert(text_lines(bytes@).take(__vx_it1.k@).drop_last() =~= text_lines(bytes@).take(__vx_it1.k@ - 1));
 //@        assert(text_lines(bytes@).take(__vx_it1.k@).last() == line@);
 //@        assert(parse_line(line@) == Some((name, oid)));
 //@        names_lawful();
 //@        assert(refs@ == parse_lines(text_lines(bytes@).take(__vx_it1.k@)));
-//@      hint 1 continue;
+//@      hint? 1 continue;
 //@        assert(text_lines(bytes@).take(__vx_it1.k@).drop_last() =~= text_lines(bytes@).take(__vx_it1.k@ - 1));
 //@        assert(text_lines(bytes@).take(__vx_it1.k@).last() == line@);
 //@        assert(parse_line(line@) == Some((name, oid)));
@@ -316,7 +317,8 @@ impl<'a> RefsIter<'a> {
 //@      ensures
 //@        # C20: the canonical text is exactly one `<hex oid> <name>\n` line per ref, every ref included
 //@        r@ == utf8(canon_text(order(self.0@))) //[C20]
-//@      hint_after 1 buf\.push\('\\n'\);
+//@      # (at the end of the loop body)
+//@      hint 1 \}\s*buf\.into_bytes\(\)
 //@        assert(order(self.0@).take(__vx_it1.k@).drop_last() =~= order(self.0@).take(__vx_it1.k@ - 1));
 //@      hint 1 buf\.into_bytes\(\)
 //@        assert(order(self.0@).take(__vx_it1.k@) =~= order(self.0@));
